@@ -359,6 +359,10 @@ fn plan_base(prop: &str) -> Vec<Item> {
                 }
             }
             v.push(it("fd_result", "pool=1,mode=5,selfwake=1", Some(2), 3));
+            // pipes: processing accepted through a pipe completes whatever the consumer's waker does, and with no pool thread
+            v.push(it("pipe_out", "pool=1,n=2,d=1,pat=1,inl=1", Some(2), 3));
+            v.push(it("pipe_out", "pool=1,n=1,d=2,pat=0,inl=1", Some(2), 3));
+            v.push(it("pipe_fs", "pool=0,n=2,y=1", Some(2), 3));
             // operations on healthy objects after pool threads were lost to panics
             v.push(it("panic_contain", "pool=1,ctx=0", Some(2), 3));
             v.push(it("panic_contain", "pool=1,ctx=3", Some(2), 3));
@@ -441,6 +445,12 @@ fn plan_base(prop: &str) -> Vec<Item> {
                 }
             }
             v.push(it("drop_obj", "pool=1,state=1,dropper=5", Some(2), 3));
+            // a task (also under a run-on-wake executor) is awaiting a future operation's result when the last owner is dropped
+            for pool in [1, 2] {
+                v.push(it("drop_obj", &format!("pool={},state=8,dropper=0,inl=1", pool), Some(if pool == 1 { 2 } else { 1 }), 3));
+            }
+            v.push(it("drop_obj", "pool=1,state=8,dropper=0", Some(2), 3));
+            v.push(it("drop_obj", "pool=0,state=8,dropper=0,inl=1", Some(2), 3));
             // the owning task's waker panics inside wake() during a poll that runs the queue; the operation stays suspended with the
             // value borrowed while the task unwinds and drops the last reference (no pool thread: the poll always runs the queue)
             v.push(it("drop_obj", "pool=0,state=6,dropper=7,selfwake=1", Some(2), 3));
@@ -587,6 +597,9 @@ fn plan_base(prop: &str) -> Vec<Item> {
             for pool in [0, 1] {
                 v.push(it("try_paths", &format!("pool={},path=7", pool), Some(2), 3));
             }
+            // try_sync on a free object while a caller is despawning surplus threads, one of them pinned by another object's job
+            v.push(it("indep_despawn", "pool=2,keep=1,fop=2", Some(2), 3));
+            v.push(it("indep_despawn", "pool=3,keep=2,fop=2", Some(1), 2));
             v.push(it("f1_try_sync_idle_nonempty", "pool=1", Some(3), 4));
             v.push(it("f1_try_sync_idle_nonempty", "pool=0", Some(3), 4));
             v.push(it("excl_susp", "pool=1,kind=0", Some(2), 3));
@@ -614,6 +627,9 @@ fn plan_base(prop: &str) -> Vec<Item> {
                 v.push(it("panic_many", &format!("pool=3,keep={}", keep), Some(if keep == 0 { 1 } else { 0 }), 2));
             }
             v.push(it("panic_many", "pool=2,keep=1", Some(2), 3));
+            // a run-on-wake task whose wake-up gets stuck on another, busy object must not hold up the woken queue
+            v.push(it("indep_wake", "pool=2", Some(2), 3));
+            v.push(it("indep_wake", "pool=3,raw=0", Some(1), 2));
             // the maximum is raised by two or more while several objects wait in the schedule and the first of them blocks
             v.push(it("indep_raise", "pool=1,to=3", Some(2), 3));
             v.push(it("indep_raise", "pool=0,to=2", Some(2), 3));
@@ -692,6 +708,11 @@ fn plan_base(prop: &str) -> Vec<Item> {
             v.push(it("pipe_out", "pool=1,n=2,d=1,pat=1,sinpoll=2", Some(1), 2));
             v.push(it("pipe_out", "pool=1,n=1,d=2,pat=0,sinpoll=1", Some(2), 3));
             v.push(it("pipe_partial", "pool=1,d=3,r=1,sinpoll=1", Some(1), 2));
+            // the pipe's producer is the task that awaits a future_sync on the same Desync (no pool thread); yielding processing
+            for (n, y) in [(1, 1), (2, 1), (2, 2), (3, 1)] {
+                v.push(it("pipe_fs", &format!("pool=0,n={},y={}", n, y), Some(2), 3));
+            }
+            v.push(it("pipe_fs", "pool=0,n=2,y=1,inl=1", Some(2), 3));
             v.push(it("pipe_steal", "pool=1", Some(2), 3));
             v.push(it("pipe_steal", "pool=2", Some(1), 2));
             v.push(it("pipe_out", "pool=1,n=4,d=3,pat=2", None, 2));
@@ -848,7 +869,7 @@ pub fn owners(scenario: &str, part: &str) -> Vec<&'static str> {
         "fd_result" | "fd_two" => vec!["C07", "C04", "C03"],
         "fs_cancel" | "fs_nested" => vec!["C08"],
         "try_paths" | "f1_try_sync_idle_nonempty" => vec!["C09", "C03"],
-        "indep" | "indep_stale" | "indep_race" | "indep_despawn" | "indep_raise" => vec!["C10"],
+        "indep" | "indep_stale" | "indep_race" | "indep_despawn" | "indep_raise" | "indep_wake" => vec!["C10"],
         "drop_obj" => vec!["C05"],
         "suspend" => vec!["C13"],
         "panic_contain" => vec!["C15", "C03"],
@@ -858,7 +879,7 @@ pub fn owners(scenario: &str, part: &str) -> Vec<&'static str> {
         "excl_drop" => vec!["C07", "C01", "C04"],
         "order_ctx" => vec!["C02", "C03"],
         "pipe_in_items" => vec!["C11", "C03"],
-        "pipe_out" | "pipe_steal" | "pipe_rewake" | "pipe_partial" => vec!["C12"],
+        "pipe_out" | "pipe_steal" | "pipe_rewake" | "pipe_partial" | "pipe_fs" => vec!["C12", "C03"],
         "pipe_drop_output" => vec!["C16"],
         "f2_dormant_race" | "desync_then_sync" | "stale_entry" => vec!["C03"],
         "prog" => {
